@@ -255,6 +255,7 @@ def big_worker(job):
             script = ",".join(rng.choice(["0", "0", "0", "1"]) for _ in range(400))
         elif idx % 3 == 0:
             script = "1,0"       # only the first (mid-walk) batch fails
+        if script:
             env["VERIF_REC_SCRIPT"] = script
         tag = "XB%d" % idx
         toks = ["-sorted", "-type", "f", kind, common.REC, tag, "fixed arg", "{}", "+", "-printf", "T:%p\\0"]
